@@ -109,31 +109,54 @@ fn c38_q_read_varint_refill_le_11_bytes() {
 struct ModelReader {
     pos: u64,
     last_len: Option<usize>,
+    /// Set when a read was let through whose end is not a representable
+    /// stream position (LimitReader must have rejected it).
+    overflow: bool,
+}
+impl ModelReader {
+    fn advance(&mut self, n: u64) {
+        match self.pos.checked_add(n) {
+            Some(p) => self.pos = p,
+            None => {
+                self.overflow = true;
+                self.pos = u64::MAX;
+            }
+        }
+    }
 }
 impl ReadValue for ModelReader {
     type Types = OwnedValues;
     fn read_i32(&mut self) -> Result<i32, ProtobufError> {
         self.last_len = Some(4);
+        self.advance(4);
         Ok(0)
     }
     fn read_i64(&mut self) -> Result<i64, ProtobufError> {
         self.last_len = Some(8);
+        self.advance(8);
         Ok(0)
     }
     fn read_varint(&mut self) -> Result<u64, ProtobufError> {
-        self.last_len = Some(1);
-        Ok(0)
+        // A varint occupies 1..=10 bytes; LimitReader only checks for one.
+        let n: u64 = kani::any();
+        kani::assume(n >= 1 && n <= 10);
+        self.last_len = Some(n as usize);
+        self.advance(n);
+        Ok(kani::any())
     }
     fn read_bytes(&mut self, len: usize) -> Result<<Self::Types as FieldTypes>::Bytes, ProtobufError> {
         self.last_len = Some(len);
+        self.advance(len as u64);
         Ok(Vec::new())
     }
     fn read_string(&mut self, len: usize) -> Result<<Self::Types as FieldTypes>::String, ProtobufError> {
         self.last_len = Some(len);
+        self.advance(len as u64);
         Ok(String::new())
     }
     fn skip(&mut self, len: usize) -> Result<(), ProtobufError> {
         self.last_len = Some(len);
+        self.advance(len as u64);
         Ok(())
     }
     fn position(&self) -> u64 {
@@ -151,12 +174,29 @@ fn c38_q_limit_reader_arith() {
     let pos: u64 = kani::any();
     let field_len: u64 = kani::any();
     let req: usize = kani::any();
-    let mut inner = ModelReader { pos, last_len: None };
+    // Leave room for one tag varint so that the stub itself cannot overflow.
+    kani::assume(pos <= u64::MAX - 16);
+    let mut inner = ModelReader { pos, last_len: None, overflow: false };
     // Top-level readers start at position 0 with limit u64::MAX; nested ones
     // are made with sub_limit at an arbitrary position.
     let top_limit: u64 = kani::any();
     kani::assume(pos as u128 + top_limit as u128 <= u64::MAX as u128);
     let mut top = LimitReader::new(&mut inner, top_limit);
+    // Optionally read a tag varint first: it may be longer than what is left
+    // of the enclosing message, leaving the position *past* the limit (the
+    // reader only checks that one byte is available).
+    let tag_first: bool = kani::any();
+    if tag_first {
+        match top.read_varint() {
+            Ok(_) => {}
+            Err(e) => {
+                std::mem::forget(e);
+                return;
+            }
+        }
+    }
+    let pos = top.position();
+    kani::cover!(tag_first && pos > 5, "position advanced by a multi-byte tag");
     let mut sub = top.sub_limit(field_len);
     let which: u8 = kani::any();
     let ok = match which {
@@ -181,6 +221,7 @@ fn c38_q_limit_reader_arith() {
             "read inside the field was rejected"
         );
     }
+    assert!(!inner.overflow, "a read whose end overflows the stream position was let through");
 }
 
 /// (c') `ValueReader::skip` / `read_bytes` on an in-memory buffer with a fully
@@ -276,4 +317,34 @@ fn c38_t_fields_step_progress() {
     }
     let pos = r.position();
     assert!(pos <= n as u64, "position beyond the input");
+}
+
+/// `ValueReader::read_string` with a fully symbolic length on 0..=6 bytes: a
+/// length larger than the remaining input is an error (no panic, no
+/// allocation proportional to the bogus length); otherwise Ok/InvalidUtf8.
+#[kani::proof]
+#[kani::unwind(10)]
+fn c38_q_value_reader_read_string() {
+    let bytes: [u8; 6] = kani::any();
+    let n: usize = kani::any();
+    kani::assume(n <= 6);
+    let mut r = ValueReader::from_buf(&bytes[..n]);
+    let len: usize = kani::any();
+    let res = r.read_string(len);
+    kani::cover!(res.is_ok() && len == 2, "2-byte string read");
+    match res {
+        Ok(sv) => {
+            assert!(len <= n, "read past the end accepted");
+            assert!(sv.len() == len);
+            std::mem::forget(sv);
+        }
+        Err(e) => {
+            if len > n {
+                assert!(matches!(e.kind(), ErrorKind::Eof | ErrorKind::IoError(_)));
+            } else {
+                assert!(matches!(e.kind(), ErrorKind::InvalidUtf8));
+            }
+            std::mem::forget(e);
+        }
+    }
 }
